@@ -25,8 +25,10 @@ import (
 //   script := ((id (o ...)) ...)   outcome of document id on its k-th send (default 0):
 //             0 2xx, 1 retryable error, 2 mapping error, 3 non-2xx without error field, 4 the whole request fails;
 //             +10: the response of the request holding it arrives after the client-side deadline
-//   end    := 0 arrivals pause, then Shutdown | 1 Shutdown right after the last op
-// obs := ((unreliable timeout) answers calls highwater)
+//   end    := 0 arrivals pause, then Shutdown | 1 Shutdown right after the last op | 2 like 1, and the scripted
+//             Elasticsearch holds every bulk request until Shutdown has returned (requests in flight; no pauses in ops)
+// obs := ((unreliable timeout) answers calls highwater answered_at_shutdown)
+//   answered_at_shutdown := end 2: ids (op order) of the events that had an answer when Shutdown returned; else ()
 //   answers := ((id (code ...)) ...) per op, codes sorted;  code := (0) success, same event | (1 send etype) ES_INDEX_ERROR
 //              carrying the error details of that send (etype 1 retryable, 2 mapping, 3 synthesized: send -1) | (2) other
 //              error | (3) filtered | (4) ES_INDEX_ERROR without matching details | (5) success with another event
@@ -52,6 +54,7 @@ type esWorld struct {
 	inflight int
 	high     int
 	answers  map[int64][]sx.Tree
+	gate     chan struct{} // non-nil: bulk requests are held until it is closed
 }
 
 type esFactory struct{ w *esWorld }
@@ -143,6 +146,9 @@ func (b *esBulk) Do(ctx context.Context) (*elastic.BulkResponse, error) {
 	w.mu.Unlock()
 
 	time.Sleep(500 * time.Microsecond) // let bulk requests overlap
+	if w.gate != nil {
+		<-w.gate
+	}
 	if late {
 		<-ctx.Done()
 	}
@@ -213,6 +219,10 @@ func runEsOnce(in sx.Tree) esRun {
 	batchSize, maxRetries, workers, waitMs := cfg.At(0).Int(), cfg.At(1).Int(), cfg.At(2).Int(), cfg.At(3).Int()
 	W := time.Duration(waitMs) * time.Millisecond
 	w := &esWorld{script: map[int64][]int64{}, sends: map[int64]int64{}, answers: map[int64][]sx.Tree{}}
+	end := in.At(3).Int()
+	if end == 2 {
+		w.gate = make(chan struct{})
+	}
 	lates, wholes := 0, 0
 	for _, s := range in.At(2).Kids {
 		l := []int64{}
@@ -330,17 +340,30 @@ func runEsOnce(in sx.Tree) esRun {
 				}
 			}
 		case 2:
-			pause()
+			if end != 2 {
+				pause()
+			}
 			pending = 0
 		}
 	}
-	if in.At(3).Int() == 0 {
+	atShutdown := []sx.Tree{}
+	if end == 0 {
 		pause()
 		_ = e.Shutdown()
 	} else {
 		_ = e.Shutdown()
 		if pending > 0 && time.Since(prevCall) > W/2 {
 			res.unreliable = true
+		}
+		if end == 2 {
+			w.mu.Lock()
+			for _, id := range order {
+				if len(w.answers[id]) > 0 {
+					atShutdown = append(atShutdown, sx.L(id))
+				}
+			}
+			w.mu.Unlock()
+			close(w.gate)
 		}
 		// requests already handed to a bulk goroutine are still completed by it (nothing awaits them, but the
 		// process lives on): wait for those; the ones in the pending batch are judged as they are
@@ -365,7 +388,7 @@ func runEsOnce(in sx.Tree) esRun {
 		calls = append(calls, sx.T(ds...))
 	}
 	sort.Slice(calls, func(i, j int) bool { return calls[i].String() < calls[j].String() })
-	res.obs = sx.T(sx.T(sx.B(res.unreliable), sx.B(res.timeout)), sx.T(ans...), sx.T(calls...), sx.L(int64(w.high)))
+	res.obs = sx.T(sx.T(sx.B(res.unreliable), sx.B(res.timeout)), sx.T(ans...), sx.T(calls...), sx.L(int64(w.high)), sx.T(atShutdown...))
 	return res
 }
 
@@ -388,9 +411,12 @@ func GenEs(r *sx.Rng, idx int) sx.Tree {
 	workers := r.Range(1, 3)
 	end := int64(0)
 	wait := int64(40)
-	if r.Chance(12) {
+	if r.Chance(14) {
 		end = 1
 		wait = 300
+		if r.Chance(40) {
+			end = 2
+		}
 	}
 	nops := int(r.Range(0, 12))
 	if r.Chance(10) {
